@@ -318,17 +318,18 @@ class Ctx:
 
     def finish(self):
         # witnesses of known / fixed findings
-        for f in self.findings:
-            w = f.get("witness")
-            if not w:
-                continue
-            rc, last = run_witness(w)
+        wl = [f for f in self.findings if f.get("witness")]
+        with ThreadPoolExecutor(max_workers=6) as ex:
+            wres = list(ex.map(lambda f: run_witness(f["witness"]), wl))
+        for f, (rc, last) in zip(wl, wres):
+            w = f["witness"]
             if f["status"] == "fixed":
                 if rc != 0:
                     self.fail("regression", f"fixed defect is back: {f['what']} ({last})", case={"witness": w}, signature=None)
             else:
                 if rc != 0:
-                    self.known_seen.append(f)
+                    if f["id"] not in [k["id"] for k in self.known_seen]:
+                        self.known_seen.append(f)
                 else:
                     self.log(f"note: known finding {f['id']} no longer reproduces ({last})")
         OUT.mkdir(exist_ok=True)
@@ -338,7 +339,7 @@ class Ctx:
         for i, f in enumerate(self.failures):
             if f["signature"] and f["signature"] in known_sigs:
                 kf = next(k for k in self.findings if f["signature"] in k.get("signatures", []))
-                if kf not in self.known_seen:
+                if kf["id"] not in [k["id"] for k in self.known_seen]:
                     self.known_seen.append(kf)
                 continue
             viol.append(f)
